@@ -255,6 +255,7 @@ Definition nth_tri (p : list N) (i : nat) : tri := snd (nth i (pat_tris p) dflt_
 Record sleaf := { sl_pat : list N; sl_cs : bool; sl_fn : bool; sl_dead : bool;
                   sl_a : nat;            (* ngramDocIterator.leftPad  = index of the first selected trigram *)
                   sl_rpad : nat;         (* ngramDocIterator.rightPad = |pattern| - leftPad *)
+                  sl_dist : nat;         (* distanceHitIterator.distance (0 = a single trigram iterator) *)
                   sl_hits : list nat;    (* what the hit iterator still holds *)
                   sl_cur : list nat }.   (* substrMatchTree.current: candidate rune offsets in the prepared document *)
 Inductive scan_kind :=
@@ -291,13 +292,13 @@ Definition new_substr (p : list N) (cs fn : bool) : mt :=
   let offs := sort_offs (pat_tris p) in
   let fs := map (fun e => freq fn cs (snd e)) offs in
   if existsb (N.eqb 0) fs then
-    MTsubstr {| sl_pat := p; sl_cs := cs; sl_fn := fn; sl_dead := true; sl_a := 0; sl_rpad := 0; sl_hits := []; sl_cur := [] |}
+    MTsubstr {| sl_pat := p; sl_cs := cs; sl_fn := fn; sl_dead := true; sl_a := 0; sl_rpad := 0; sl_dist := 0; sl_hits := []; sl_cur := [] |}
   else
     let '(a, b) := select_idx offs fs in
     let tris := ix_tris fn in
     let hits := if a =? b then post tris cs (nth_tri p b)
                 else dist_hits (b - a) (post tris cs (nth_tri p a)) (post tris cs (nth_tri p b)) in
-    MTsubstr {| sl_pat := p; sl_cs := cs; sl_fn := fn; sl_dead := false; sl_a := a; sl_rpad := length p - a;
+    MTsubstr {| sl_pat := p; sl_cs := cs; sl_fn := fn; sl_dead := false; sl_a := a; sl_rpad := length p - a; sl_dist := b - a;
                 sl_hits := hits; sl_cur := [] |}.
 
 Definition is_brute (t : mt) : bool := match t with MTscan SKall _ => true | _ => false end.
@@ -475,7 +476,7 @@ Definition sleaf_prepare (k : nat) (s : sleaf) : sleaf :=
   let mine := take_while (fun p => p <? fend) h1 in
   let rest := drop_while (fun p => p <? fend) h1 in
   let ok := filter (fun p => (sl_a s + start <=? p) && (p + sl_rpad s <=? fend)) mine in
-  {| sl_pat := sl_pat s; sl_cs := sl_cs s; sl_fn := sl_fn s; sl_dead := false; sl_a := sl_a s; sl_rpad := sl_rpad s;
+  {| sl_pat := sl_pat s; sl_cs := sl_cs s; sl_fn := sl_fn s; sl_dead := false; sl_a := sl_a s; sl_rpad := sl_rpad s; sl_dist := sl_dist s;
      sl_hits := rest; sl_cur := map (fun p => p - start - sl_a s) ok |}.
 
 Fixpoint prepare (k : nat) (t : mt) : mt :=
@@ -721,6 +722,34 @@ Definition tbl_re (docs : list doc) (tb : list (N * list (bool * bool))) (rid : 
 Definition count_freq (orbit : N -> list N) (c : corpus) (fn cs : bool) (g : tri) : N :=
   N.of_nat (length (post orbit (all_tris (texts c fn)) cs g)).
 
+(** the real frequencies: byte size of the delta-varint coded posting list of each trigram consulted (btreeIndex.Get(g).sz);
+    case-insensitive: summed over the case variants (generateCaseNgrams = product of the SimpleFold orbits) *)
+Fixpoint varlen_fuel (fuel : nat) (x : nat) : nat :=
+  match fuel with 0 => 1 | S f => if x <? 128 then 1 else S (varlen_fuel f (x / 128)) end.
+Definition varlen (x : nat) : nat := varlen_fuel 10 x.
+Fixpoint blob_size (last : nat) (l : list nat) : nat :=
+  match l with [] => 0 | p :: r => varlen (p - last) + blob_size p r end.
+Definition variants (orbit : N -> list N) (g : tri) : list tri :=
+  let '(a, b, c) := g in
+  flat_map (fun x => flat_map (fun y => map (fun z => (x, y, z)) (orbit c)) (orbit b)) (orbit a).
+Definition real_freq (orbit : N -> list N) (c : corpus) (fn cs : bool) (g : tri) : N :=
+  let tris := all_tris (texts c fn) in
+  let size g' := blob_size 0 (post orbit tris true g') in
+  N.of_nat (if cs then size g else fold_right (fun v a => size v + a) 0 (variants orbit g)).
+
+(** the substring atoms of a tree in order: (leftPad, rightPad, distance, freq=0) -- compared with the implementation's
+    ngramDocIterator / distanceHitIterator fields, this ties iterateNgrams / findSelectiveNgrams exactly *)
+Fixpoint leaves (t : mt) : list (nat * nat * nat * bool) :=
+  match t with
+  | MTand cs => flat_map leaves cs
+  | MTor cs => flat_map leaves cs
+  | MTandLine cs => flat_map leaves cs
+  | MTnot c' => leaves c'
+  | MTwrap c' => leaves c'
+  | MTsubstr s => [(sl_a s, sl_rpad s, sl_dist s, sl_dead s)]
+  | _ => []
+  end.
+
 Definition repo_row := (list N * N * bool * list (list N) * list (list N) * N)%type.
 Definition doc_row := (list N * list N * N * nat * N)%type.
 Definition mk_repo (r : repo_row) : repo :=
@@ -731,29 +760,45 @@ Definition mk_doc (d : doc_row) : doc :=
   {| d_name := nm; d_content := ct; d_mask := mask; d_repo := rp; d_lang := lang |}.
 
 Definition c01case := (list repo_row * list doc_row * list (list N * N) * list (N * N * list N) *
-                       list (N * list (bool * bool)) * Q * list (nat * list N))%type.
+                       list (N * list (bool * bool)) * Q * list (nat * list N) *
+                       option (list (nat * nat * nat * bool)))%type.   (* observed substring leaves of the unpruned tree (None: no tree built) *)
 Definition c01_model (cs : c01case) : list nat * list nat :=
-  let '(repos, docs, langs, folds, retbl, q, _) := cs in
+  let '(repos, docs, langs, folds, retbl, q, _, _) := cs in
   let c := {| c_repos := map mk_repo repos; c_docs := map mk_doc docs; c_langs := langs |} in
   let tl := tbl_lower folds in let ob := tbl_orbit folds in let re := tbl_re (c_docs c) retbl in
-  (search re tl ob c (count_freq ob c) q, spec_search re tl c q).
+  (search re tl ob c (real_freq ob c) q, spec_search re tl c q).
 Definition row_eqb (a b : nat * list N) : bool := Nat.eqb (fst a) (fst b) && runes_eqb (snd a) (snd b).
 (** 0 = model mechanism, model specification and implementation agree; 1 = the mechanism differs from the
     implementation (model not faithful); 2 = mechanism = implementation but the specification differs (the property
     fails on this input, reproduced by the model); 3 = the hypothesis of the theorem (regexp prefilter obligation) is
-    violated on this input: the engine matches a text on which the distilled literal tree does not hold *)
+    violated on this input: the engine matches a text on which the distilled literal tree does not hold;
+    4 = the trigram selection (leftPad / rightPad / distance / freq=0 per substring atom) differs from the implementation's *)
+Definition c01_leaves (cs : c01case) : bool :=
+  let '(repos, docs, langs, folds, retbl, q, _, obs) := cs in
+  let c := {| c_repos := map mk_repo repos; c_docs := map mk_doc docs; c_langs := langs |} in
+  let ob := tbl_orbit folds in
+  match obs with
+  | None => true
+  | Some l =>
+      let leaf_eqb (a b : nat * nat * nat * bool) :=
+        let '(a1, a2, a3, a4) := a in let '(b1, b2, b3, b4) := b in
+        if a4 || b4 then Bool.eqb a4 b4 else Nat.eqb a1 b1 && Nat.eqb a2 b2 && Nat.eqb a3 b3 in
+      list_eqb leaf_eqb (leaves (build ob c (real_freq ob c) (expand (simp c q)))) l
+  end.
 Definition c01_hyp (cs : c01case) : bool :=
-  let '(repos, docs, langs, folds, retbl, q, _) := cs in
+  let '(repos, docs, langs, folds, retbl, q, _, _) := cs in
   let c := {| c_repos := map mk_repo repos; c_docs := map mk_doc docs; c_langs := langs |} in
   let tl := tbl_lower folds in let ob := tbl_orbit folds in let re := tbl_re (c_docs c) retbl in
-  re_okb re tl ob c (count_freq ob c) (expand (simp c q)).
+  re_okb re tl ob c (real_freq ob c) (expand (simp c q)).
 Definition c01_verdict (cs : c01case) : N :=
-  let '(_, docs, _, _, _, _, observed) := cs in
+  let '(_, docs, _, _, _, _, observed, _) := cs in
   let '(mech, spec) := c01_model cs in
   if negb (c01_hyp cs) then 3%N else
+  if negb (c01_leaves cs) then 4%N else
   let row k := let d := nth k (map mk_doc docs) dflt_doc in (d_repo d, d_name d) in
   if negb (list_eqb row_eqb (map row mech) observed) then 1%N
   else if negb (list_eqb row_eqb (map row spec) observed) then 2%N else 0%N.
 Definition c01_mismatches (cs : list c01case) : list N := bad_indexes (fun x => N.eqb (c01_verdict x) 0) cs.
 Definition c01_mech_mismatches (cs : list c01case) : list N := bad_indexes (fun x => negb (N.eqb (c01_verdict x) 1)) cs.
 Definition c01_hyp_mismatches (cs : list c01case) : list N := bad_indexes (fun x => negb (N.eqb (c01_verdict x) 3)) cs.
+Definition c01_leaf_mismatches (cs : list c01case) : list N := bad_indexes (fun x => negb (N.eqb (c01_verdict x) 4)) cs.
